@@ -194,3 +194,12 @@ Check host_set_notifies_in_every_reachable_world :
     set_variable I sw_now name v w
     = (OOk tt, (w <| w_state := s' |>) <| w_events ::= fun evs => evs ++ map (fun o => EvObs o name v) obs |>).
 Print Assumptions host_set_notifies_in_every_reachable_world.
+
+(* T-gen tie of the event-log theorems: the Rust engine calls into the host at exactly the places (and from exactly the
+   callers) where the model logs an event — regenerated from the sources on every run *)
+From Ink.Gen Require Import EngineGen.
+From Ink.Shell Require Import EventsTie.
+Theorem host_calls_are_where_the_model_logs_them : host_calls_confined = true.
+Proof. exact EventsTie.now_host_calls_confined. Qed.
+Check host_calls_are_where_the_model_logs_them : host_calls_confined = true.
+Print Assumptions host_calls_are_where_the_model_logs_them.
